@@ -1,4 +1,5 @@
 """C04 — Drummer's membership view only moves forward and mirrors the newest report.  db engine."""
+import copy
 from vlib import *
 import dbengine, dbgen, dbprops
 
@@ -16,12 +17,49 @@ def nontrivial(ops, obs):
     return False
 
 
+def perturb(rng, ops):
+    """history-preserving disorder on top of the generator: whole reports replayed later / earlier (duplicates, reordering
+    across membership changes), one entry repeated inside a report, entries of a report shuffled.  Every complete entry still
+    carries the membership of ITS version, so the trace stays consistent with the same linear history."""
+    ops = list(ops)
+    ridx = [i for i, op in enumerate(ops) if op[0] == "R"]
+    if len(ridx) < 2:
+        return ops
+    for _ in range(rng.choice([0, 1, 1, 2, 3])):
+        i = rng.choice(ridx)
+        r = copy.deepcopy(ops[i][1])
+        x = rng.random()
+        if x < 0.45:
+            # the same report again, somewhere later (stale by then) or earlier (ahead of the others)
+            j = rng.randrange(len(ops) - 1)
+            ops[j:j] = [("R", r), ("LC",)]
+            ridx = [k for k, op in enumerate(ops) if op[0] == "R"]
+        elif x < 0.75 and r["infos"]:
+            ci = copy.deepcopy(rng.choice(r["infos"]))
+            if rng.random() < 0.5:
+                ci["leader"] = not ci["leader"]
+            r["infos"].insert(rng.randrange(len(r["infos"]) + 1), ci)
+            ops[i] = ("R", r)
+        else:
+            rng.shuffle(r["infos"])
+            ops[i] = ("R", r)
+    return ops
+
+
+def mon_c04(ops, obs, eng):
+    return dbprops.mon_view(ops, obs, eng, check=("c04",))
+
+
 def run(ck):
     ck.cov["rule"] = ("PRNG traces (view profile): 2..6 hosts, 1..3 shards, per shard a linear membership history that keeps evolving (add on a free "
                       "host / remove); each report lists the replicas that ever lived on the host, each at ANY history entry it could have seen "
-                      "(stale/duplicate/reordered), with leader, incomplete and pending flags, occasional stray replicas; ticks in runs of 1,2,11,12,13 "
-                      "(around the failure timeout); SCHEDULER_CONTEXT and SHARD_STATES observed after every event. Non-trivial = an older-version "
-                      "complete entry arrives after a newer one; distinct by md5 of the trace.")
+                      "(stale/duplicate/reordered), with leader, incomplete and pending flags, zombie replicas (85% of the traces: zombies consistent "
+                      "with the history; 15%: the shared profile whose complete-but-empty zombie entries may trip the consistency panics); on top: "
+                      "whole reports replayed earlier/later, entries repeated or shuffled inside a report; ticks in runs of 1,2,11,12,13 "
+                      "(around the failure timeout); SCHEDULER_CONTEXT and SHARD_STATES observed after every event. Monitors (mon_view, c04 part): "
+                      "view = newest complete entry (version, ids, addresses); version monotone; FirstObserved stable for members, = report time for "
+                      "new members; at most one leader; only-stale-entries => record unchanged except report times; no panic on history-consistent "
+                      "reports. Non-trivial = an older-version complete entry arrives after a newer one; distinct by md5 of the trace.")
     ok = ck.proofs(["theories/DBRun.vo"])
     eng = dbengine.Engine(ck)
     eng.sort_ls = True
@@ -29,8 +67,9 @@ def run(ck):
         return
     traces = dbprops.load_corpus("C04")
     for _ in range(260 if ck.tier == "quick" else 12000):
-        traces.append(dbgen.gen_view_trace(ck.rng, length=ck.rng.randint(10, 40)))
+        t = dbgen.gen_view_trace(ck.rng, length=ck.rng.randint(10, 40), stray_consistent=ck.rng.random() < 0.85)
+        traces.append(perturb(ck.rng, t))
     if not ok:
         return
-    dbprops.run_db_property(ck, eng, traces, [lambda o, b, e: dbprops.mon_view(o, b, e, check=("c04",))], with_replicas=False, nontrivial=nontrivial)
+    dbprops.run_db_property(ck, eng, traces, [mon_c04], with_replicas=False, nontrivial=nontrivial)
     ck.sample({"trace": dbengine.trace_to_json(traces[2][:8])})
